@@ -60,7 +60,7 @@ const ODD_NAMES: &[&str] = &[
 /// Deep-nesting / huge-literal sources: the parser's limits, not the stack, must stop them.
 /// `depth` up to 90 goes through the full fault closure; "deep" scenarios use 100..20000 levels
 /// with a handful of variants (cheap while the limits work: the parser gives up at level ~40).
-pub const NEST_KINDS: usize = 26;
+pub const NEST_KINDS: usize = 28;
 pub fn nest_source(kind: usize, depth: usize, rng: &Rng, d: &Delims) -> String {
     let tag = |s: &str| format!("{} {} {}", d.bs, s, d.be);
     let var = |s: &str| format!("{} {} {}", d.vs, d.sanitize_inner(s), d.ve);
@@ -151,6 +151,10 @@ pub fn nest_source(kind: usize, depth: usize, rng: &Rng, d: &Delims) -> String {
             s
         }
         23 => var(&wrap("{...", "{}", "}")),
+        // component calls nested through attribute braces / spreads (not a kind of nesting any
+        // of the generic guards sees by accident)
+        26 => format!("{} {} {}", d.vs, wrap("<A x={", "<A/>", "}/>"), d.ve),
+        27 => format!("{} {} {}", d.vs, wrap("<A {...", "m", "}/>"), d.ve),
         // legal but unusual shapes for the compile stage (empty bodies, constant conditions,
         // spreads of literals, nested comprehensions, nothing but a comment / a raw block)
         24 => {
@@ -168,6 +172,12 @@ pub fn nest_source(kind: usize, depth: usize, rng: &Rng, d: &Delims) -> String {
                 "{% set a = [x for x in y if x] %}{% continue %}", "{% for a in b %}{% endfor %}{% continue %}", "{% for a in b %}{% else %}{% break %}{% endfor %}",
                 "{% component C() %}{{ [x for x in y] }}{% continue %}{% endcomponent C %}", "{% for a in b %}{% component D() %}{% break %}{% endcomponent D %}{% endfor %}",
                 "{% for a in [x for x in y] %}{% endfor %}{% break %}", "{% filter upper %}{% continue %}{% endfilter %}", "{% block b %}{% break %}{% endblock %}",
+                // component parameter defaults and annotations of every literal kind, signed
+                "{% component D1(x=-1) %}{% endcomponent D1 %}", "{% component D2(x=-\"a\") %}{% endcomponent D2 %}", "{% component D3(x=-true) %}{% endcomponent D3 %}", "{% component D4(x=-none) %}{% endcomponent D4 %}",
+                "{% component D5(x=-[1]) %}{% endcomponent D5 %}", "{% component D6(x: map = -{}) %}{% endcomponent D6 %}", "{% component D7(x=--1) %}{% endcomponent D7 %}", "{% component D8(x=- 1.5) %}{% endcomponent D8 %}",
+                "{% component D9(x=+1) %}{% endcomponent D9 %}", "{% component D10(x=1+1) %}{% endcomponent D10 %}", "{% component D11(x=(1)) %}{% endcomponent D11 %}", "{% component D12(x=a) %}{% endcomponent D12 %}",
+                "{% component D13(x=[) %}{% endcomponent D13 %}", "{% component D14(x: integer = \"s\") %}{% endcomponent D14 %}", "{% component D15(x: float = -9223372036854775809) %}{% endcomponent D15 %}",
+                "{% component D16(x={\"a\": -1}, y=[-1, -\"b\"]) %}{% endcomponent D16 %}", "{% component D17(x=-) %}{% endcomponent D17 %}", "{% component D18(x=-", "{{ <D1 x={-\"a\"}/> }}", "{{ <D1 x=-1/> }}",
                 // argument and placement rules of extends / include
                 "a{% extends \"x\" %}", "{% extends \"x\" %}{% extends \"y\" %}", "{% block b %}{% extends \"x\" %}{% endblock %}", "{% if a %}{% extends \"x\" %}{% endif %}", "{% extends x %}", "{% extends 1 %}",
                 "{% extends \"a\" ~ \"b\" %}", "{% extends \"\" %}", "{% extends `x` %}", "{% extends \"x\" y %}", "{% extends", "{% extends %}", "{% include x %}", "{% include 1 %}", "{% include \"a\" ~ \"b\" %}", "{% include \"\" %}",
